@@ -271,6 +271,53 @@ def run(ctx):
 
     drive.for_each_case(ctx, 'rich', max(20, ctx.budget // 10), body_rich_variants, gen=lambda c, r: Ty('int'))
 
+    # a variant that subclasses another variant (its own tag, more fields), and tagged unions as container elements: the value's TAG
+    # picks the converter on the way out too, and an element is written exactly as the union alone writes it
+    def body_variant_family(i, rng, ty, T):
+        from pane.annotations import Tagged
+        Shape = type(f"FShape{i}", (env.PaneBase,), {'__annotations__': {'name': str, 'kind': t.Literal['shape']}, 'kind': 'shape', '__module__': __name__})
+        Circle = type(f"FCircle{i}", (Shape,), {'__annotations__': {'kind': t.Literal['circle'], 'radius': float}, 'kind': 'circle', 'radius': 1.0, '__module__': __name__})
+        Other = type(f"FOther{i}", (env.PaneBase,), {'__annotations__': {'kind': t.Literal['other'], 'y': int}, 'kind': 'other', 'y': 0, '__module__': __name__})
+        members = [Shape, Circle, Other]
+        rng.shuffle(members)
+        ext = rng.choice((False, True, ('t', 'c')))
+        U = t.Annotated[t.Union[tuple(members)], Tagged('kind', ext)]
+        if tuple(t.get_args(t.get_args(U)[0])) != tuple(members):
+            return
+        values = [Circle('c', radius=2.5), Shape('s'), Other(y=3)]
+        for x in values:
+            d = observe(env.into_data, x, U)
+            own = observe(env.into_data, x, type(x))
+            ctx.count('variant_family_rows')
+            ctx.case(('variant-family', str(ext), type(x).__name__[:6], d.kind), nontrivial=True)
+            wit = {'members': [m.__name__ for m in members], 'layout': str(ext), 'typed': short(x), 'into_data': d.brief(), 'its_own_class_writes': own.brief()}
+            if d.kind != 'value' or own.kind != 'value':
+                ctx.violation('serialisation-writes-the-layout', 'family', i, wit, mech='into_data-raised')
+                return
+            body = d.val if ext is False else (d.val.get(x.kind) if ext is True else d.val.get(ext[1]))
+            if not deep_typed_eq(own.val, body)[0]:
+                ctx.violation('serialisation-writes-the-layout', 'family', i, wit, mech='variant-written-by-another-variants-converter')
+                return
+            back = observe(env.from_data, d.val, U)
+            if back.kind != 'value' or type(back.val) is not type(x) or not (back.val == x):
+                ctx.violation('serialisation-reads-back', 'family', i, {**wit, 'reparsed': back.brief()}, mech='variant-family-roundtrip')
+                return
+            # as an element of containers: written exactly as alone
+            for cname, CT, cv, pick in (('list', t.List[U], [x], lambda r: r[0]), ('dict', t.Dict[str, U], {'k': x}, lambda r: r['k']),
+                                        ('mapping', t.Mapping[str, U], {'k': x}, lambda r: r['k']), ('tuple', t.Tuple[U, int], (x, 1), lambda r: r[0])):
+                cd = observe(env.into_data, cv, CT)
+                ctx.count('tagged_in_container_rows')
+                if cd.kind != 'value' or not deep_typed_eq(d.val, pick(cd.val))[0]:
+                    ctx.violation('serialisation-writes-the-layout', 'family', i, {**wit, 'container': cname, 'container_into_data': cd.brief()},
+                                  mech=f"layout-lost-inside-{cname}")
+                    return
+                cb = observe(env.from_data, cd.val, CT)
+                if cb.kind != 'value' or not (pick(cb.val) == x):
+                    ctx.violation('serialisation-reads-back', 'family', i, {**wit, 'container': cname, 'reparsed': cb.brief()}, mech=f"container-roundtrip-{cname}")
+                    return
+
+    drive.for_each_case(ctx, 'family', max(20, ctx.budget // 10), body_variant_family, gen=lambda c, r: Ty('int'))
+
     # class-attribute style variants (as in the repository's tests): int / float / dict subclasses carrying `tag`
     def body_attr(i, rng, ty, T):
         V1 = type('AV1', (int,), {'tag': 3})
